@@ -3,7 +3,7 @@
 //! slicing of the 255-byte division buffer included) and `verif_hooks::get_polynomial`.
 
 use crate::adapter::{self, LEVELS, VERSIONS};
-use crate::fw::{Ctx, Report};
+use crate::fw::{Ctx, Report, Tier};
 use crate::pool;
 use crate::stats::Stats;
 use oracle::decode::deinterleave;
@@ -25,6 +25,9 @@ pub enum J {
     Dense { v: usize, level: usize, kind: usize, seed: u64 },
     /// linearity: structure(a) ^ structure(b) == structure(a ^ b)
     Linear { v: usize, level: usize, seed: u64 },
+    /// two different data arrays with the same cheap fingerprint `hash` (collide.rs), divided one right after
+    /// the other on the same thread in the same cell
+    Collide { v: usize, level: usize, hash: usize, seed: u64 },
 }
 
 impl J {
@@ -34,6 +37,7 @@ impl J {
             J::Generator { v, level } => json!({"fam": "generator", "v": v, "level": level}),
             J::Dense { v, level, kind, seed } => json!({"fam": "dense", "v": v, "level": level, "kind": kind, "seed": seed.to_string()}),
             J::Linear { v, level, seed } => json!({"fam": "linear", "v": v, "level": level, "seed": seed.to_string()}),
+            J::Collide { v, level, hash, seed } => json!({"fam": "collide", "v": v, "level": level, "hash": hash, "seed": seed.to_string()}),
         }
     }
     fn from_json(j: &Value) -> Option<J> {
@@ -44,6 +48,7 @@ impl J {
             "generator" => J::Generator { v: g("v")?, level: g("level")? },
             "dense" => J::Dense { v: g("v")?, level: g("level")?, kind: g("kind")?, seed: s("seed")? },
             "linear" => J::Linear { v: g("v")?, level: g("level")?, seed: s("seed")? },
+            "collide" => J::Collide { v: g("v")?, level: g("level")?, hash: g("hash")?, seed: s("seed")? },
             _ => return None,
         })
     }
@@ -149,11 +154,19 @@ pub fn jobs(ctx: &Ctx) -> Vec<J> {
         for level in 0..4usize {
             for i in 0..dense {
                 k += 1;
-                jobs.push(J::Dense { v, level, kind: if i < 14 { i } else { 0 }, seed: mix(ctx.seed, k) });
+                jobs.push(J::Dense { v, level, kind: if i < 17 { i } else { 0 }, seed: mix(ctx.seed, k) });
             }
             for _ in 0..ctx.tier.pick(6, ctx.scale(240)) {
                 k += 1;
                 jobs.push(J::Linear { v, level, seed: mix(ctx.seed, k) });
+            }
+            // fingerprint collisions: every hash of the list in a rotating subset of cells (thorough: all cells)
+            for h in 0..crate::collide::HASH_NAMES.len() {
+                k += 1;
+                if ctx.tier == Tier::Quick && ((v * 4 + level + h) % 5 != 0 || v > 12) {
+                    continue;
+                }
+                jobs.push(J::Collide { v, level, hash: h, seed: mix(ctx.seed, k) });
             }
         }
     }
@@ -254,7 +267,7 @@ pub fn observe(ctx: &Ctx, st: &mut Stats, j: &J) {
                 }),
                 // prescribed per-block shapes: padding pattern in every block, padding pattern except one byte,
                 // zero blocks after the first, one zero block in the middle, identical blocks, leading zeros
-                6..=13 => {
+                6..=16 => {
                     data = crate::craft::data_codewords_for_shape(v, level, kind - 6, seed);
                     st.count("block_shape_arrays_checked", 1);
                     st.reach("block_shapes", (kind - 6) as u64);
@@ -277,6 +290,50 @@ pub fn observe(ctx: &Ctx, st: &mut Stats, j: &J) {
             st.reach("dense_cells", (v * 4 + level) as u64);
             st.reach("dense_kinds", kind as u64);
             st.distinct(mix(seed, kind as u64));
+        }
+        J::Collide { v, level, hash, seed } => {
+            st.eval();
+            let lay = tables::layout(v, level);
+            let n = lay.data_codewords;
+            let base: Vec<u8> = {
+                let mut rng = Rng::new(seed);
+                (0..n).map(|_| rng.byte()).collect()
+            };
+            // variants differ in up to 4 bytes spread over the array (first, middle, last region)
+            let make = |i: u64| -> Vec<u8> {
+                let mut a = base.clone();
+                let m = oracle::rng::mix(seed ^ 0xc011, i);
+                for (k, pos) in [0usize, n / 3, n / 2, n - 1].iter().enumerate() {
+                    a[*pos] ^= (m >> (8 * k)) as u8;
+                }
+                a
+            };
+            let pair = match crate::collide::find_pair(hash, 1 << 18, make) {
+                Some(p) => p,
+                None => {
+                    st.count("collision_searches_without_result", 1);
+                    return;
+                }
+            };
+            let (a, b) = (make(pair.0), make(pair.1));
+            for (first, second) in [(&a, &b), (&b, &a)] {
+                for d in [first, second] {
+                    let out = match call_structure(d, v, level) {
+                        Ok(o) => o,
+                        Err(p) => {
+                            viol(st, ("structure-panic".into(), p), j, String::new());
+                            return;
+                        }
+                    };
+                    if let Err(e) = check_output(&out, d, &lay) {
+                        viol(st, e, j, format!("second of two arrays with the same {} fingerprint, divided right after the first on the same thread (version {v} level {})", crate::collide::HASH_NAMES[hash], tables::LEVEL_NAMES[level]));
+                        return;
+                    }
+                }
+            }
+            st.count("fingerprint_collision_pairs_checked", 1);
+            st.reach("collision_hashes", hash as u64);
+            st.distinct(mix(0xc011de, seed));
         }
         J::Linear { v, level, seed } => {
             st.eval();
@@ -327,8 +384,8 @@ pub fn run(ctx: &Ctx) -> Report {
         ),
     );
     rep.exhaustive = Some(all_values);
-    rep.expected_sets = vec![("blocklen_ec_pairs", npairs), ("degrees", 13), ("generator_cells", 160), ("dense_cells", 160), ("dense_kinds", 14)];
-    rep.required_sets = vec![("blocklen_ec_pairs", npairs), ("degrees", 13), ("generator_cells", 160), ("dense_cells", 160), ("dense_kinds", 14)];
+    rep.expected_sets = vec![("blocklen_ec_pairs", npairs), ("degrees", 13), ("generator_cells", 160), ("dense_cells", 160), ("dense_kinds", 17)];
+    rep.required_sets = vec![("blocklen_ec_pairs", npairs), ("degrees", 13), ("generator_cells", 160), ("dense_cells", 160), ("dense_kinds", 17)];
     rep.min_evaluations = if all_values { 1_300_000 } else { 100_000 };
     rep.assumptions = vec![
         "exhaustive (when true) refers to the single-non-zero-byte basis: every position x every non-zero value for every (block length, degree) pair in use; general contents follow by GF(2)-linearity, which is additionally observed on sampled combinations, not assumed".into(),
